@@ -230,4 +230,24 @@ PROPS['C14'].update({
     'level_note': 'A-HEAP (identity = allocation), SEQ/SET theories, pure set comprehension closed form generated from the real AST, assumed stdlib Set mixins on Unique.',
 })
 
+PROPS['C03']['units'] = ['lindig.neighbors', 'lindig.lattice', 'matrices.doubleprime'] + GALOIS
+PROPS['C03']['proved_part'] = ('the Lindig step (neighbors): exactly the upper covers; the worklist lindig.lattice: yields exactly the extents of the context, each once '
+                               '(invariant J1-J8 over mapping/heap/processed sets, Lean lemmas L-LINDIG, cover_unique_gen, L-WORKLIST)')
+PROPS['C03']['bounded_part'] = 'the constructor Lattice.__init__ turning the yielded tuples into Concept objects; len(lattice); replay'
+PROPS['C03']['level_text'] = 'neighbors and the worklist generator proved for all contexts; the constructor is bounded.'
+PROPS['C03']['level_note'] = 'Assumes bitsets contracts (atomic, shortlex keys, frommembers), heapq contract, SMT<->Lean transcription; termination not proved.'
+PROPS['C05']['units'] = ['lindig.neighbors', 'lindig.lattice', 'contexts.neighbors', 'contexts._neighbors', 'matrices.doubleprime'] + GALOIS
+PROPS['C05']['proved_part'] += ('; the worklist records for every extent exactly its upper covers in the upper list and exactly its lower covers in the lower list '
+                                '(converse by construction), the tuple being shared between mapping and heap')
+PROPS['C05']['bounded_part'] = 'Lattice.__init__ mapping the recorded extents to member objects (identity, no repeats); replay'
+PROPS['C06'].update({
+    'units': ['lindig.lattice'],
+    'level': 'other',
+    'proved_part': 'the generator yields extents in strictly increasing shortlex rank (heap invariant J5/J8), relative to the bitsets shortlex key contract',
+    'bounded_part': 'index/dindex assignment, sorting of neighbour tuples, infimum/supremum/atoms accessors (Lattice.__init__/_init)',
+    'technique': 'contract-based deductive verification of the generator order; bounded stand-in for the constructor-level ranks and sorting',
+    'level_text': 'Generator order proved; constructor-level clauses bounded.',
+    'level_note': 'shortlex()/longlex() keys realising the positional orders are an assumed bitsets contract (bounded side uses labels whose order differs from position).',
+})
+
 NOT_APPLICABLE = {}
